@@ -612,6 +612,14 @@ func OpenWith(path string, vLogs []appendable.Appendable, txLog, cLog appendable
 			break
 		}
 
+		// the tx log may have reached the disk ahead of the value logs (value logs are only guaranteed
+		// to be durable first for transactions that went through sync)
+		err = precommittedValuesAvailable(tx, vLogs)
+		if err != nil {
+			opts.logger.Infof("%v: discarding pre-committed transaction: %d", err, precommittedTxID+1)
+			break
+		}
+
 		precommittedTxID++
 		precommittedAlh = tx.header.Alh()
 
@@ -1551,6 +1559,35 @@ func (s *ImmuStore) releaseAllocTx(tx *Tx) {
 
 func encodeOffset(offset int64, vLogID byte) int64 {
 	return int64(vLogID)<<56 | offset
+}
+
+// precommittedValuesAvailable checks that the values of a pre-committed transaction
+// found in the tx log can be read from the value logs and match their digests
+func precommittedValuesAvailable(tx *Tx, vLogs []appendable.Appendable) error {
+	for _, e := range tx.Entries() {
+		vLogID, offset := decodeOffset(e.vOff)
+
+		if e.vLen == 0 || vLogID == 0 {
+			// empty, embedded or not stored (digest-only) value
+			continue
+		}
+
+		if int(vLogID) > len(vLogs) {
+			return fmt.Errorf("%w: value log %d does not exist", ErrCorruptedData, vLogID)
+		}
+
+		b := make([]byte, e.vLen)
+
+		n, err := vLogs[vLogID-1].ReadAt(b, offset)
+		if err != nil && !errors.Is(err, io.EOF) {
+			return err
+		}
+		if n != len(b) || e.hVal != sha256.Sum256(b) {
+			return fmt.Errorf("%w: value of a pre-committed transaction is not available", ErrCorruptedData)
+		}
+	}
+
+	return nil
 }
 
 func decodeOffset(offset int64) (byte, int64) {
